@@ -19,7 +19,7 @@ from harness.fakes.schedloop_pool import World
 # --------------------------------------------------------------------------
 # the property itself, as a predicate on the real objects (used for impl_violations / search)
 # --------------------------------------------------------------------------
-def check_state(w, obs):
+def check_state(w, obs, act=None):
     """returns list of violation strings for the current state of the real pool."""
     bad = []
     m = w.m
@@ -69,6 +69,17 @@ def check_state(w, obs):
         for i in inside:
             bad.append('stuck-or-waiting: client %d inside acquire with nothing runnable' % i) \
                 if not any(c is not None for c in w.holding) else None
+    # a completed check in (release task) or clean() has swept ALL host pools (theorem C12_checkin_sweeps_all_hosts)
+    if act is not None and act[0] == 'step' and act[1] == 'r' and act[2] not in obs['live_tasks'] and not w.errors:
+        for k, p in enumerate(obs['pools']):
+            if p is None:
+                continue
+            if not p['ready'] and not p['busy'] and not p['waiters']:
+                bad.append('idle-bookkeeping: idle host pool %d kept by the check in / clean that just finished' % k)
+            dead = [c for c in p['ready'] if not w.conns[c].is_open]
+            if dead:
+                bad.append('idle-bookkeeping: closed connections %s kept in ready of key %d by the check in / clean that '
+                           'just finished' % (dead, k))
     if w.errors:
         bad.append('exception: ' + '; '.join(w.errors))
     return bad
@@ -98,7 +109,7 @@ def quiescence_epilogue(w):
         w.apply(pick)
         o = w.observe()
         steps.append([pick, o])
-        bad += check_state(w, o)
+        bad += check_state(w, o, pick)
     obs = w.observe()
     inside = [i for i, wh in enumerate(w.where) if wh in ('pool', 'hold')]
     if inside:
@@ -163,7 +174,7 @@ def run_schedule(cfg, schedule, epilogue=True, want_trace=True):
             o = w.observe()
             if want_trace:
                 out['trace'].append([a, o])
-            for b in check_state(w, o):
+            for b in check_state(w, o, a):
                 out['violations'].append([idx, b])
         if epilogue and out['not_enabled'] is None:
             steps, bad = quiescence_epilogue(w)
@@ -301,7 +312,7 @@ def explore(cfg, limits):
                     w.apply(b)
                 w.apply(a)
                 o = w.observe()
-                res2['bad'] = check_state(w, o)
+                res2['bad'] = check_state(w, o, a)
                 res2['fp'] = fingerprint(w, _account(used, a))
             try:
                 w.run(on_point2)
@@ -354,7 +365,7 @@ def random_runs(cfg, seeds, max_len):
                 o = w.observe()
                 res['schedule'].append(a)
                 res['trace'].append([a, o])
-                for b in check_state(w, o):
+                for b in check_state(w, o, a):
                     res['violations'].append([idx, b])
             steps, bad = quiescence_epilogue(w)
             res['epilogue'] = steps
